@@ -11,7 +11,7 @@ def P(tech, text, ref, cat="proof", note=NOTE):
 CLAIMED = {
  "C01": P("Lean 4 theorems over any field (cell continuity for any μ solving the Poisson equation; shares; units) + Float-model correspondence with solve_for_observables + SI continuity oracle on saved frames",
           "Per-cell continuity, zero outflow away from terminals, balanced terminal density and the unit conversion are machine-checked for every mesh; real runs (2-4 terminals, holes, ramped fields, time-dependent currents, screening) are checked frame by frame against the injection computed independently from the requested currents in SI; acceptance of balanced assignments is exercised on the real constructor.", "§5 C01"),
- "C02": P("Lean 4 theorems over ℝ about the per-site root + Float-model/numpy correspondence + extended-precision oracle",
+ "C02": P("Lean 4 theorems over ℝ about the per-site root, lifted to the whole adaptive update and to runs (C02Run) + Float-model/numpy correspondence (sites, whole TDGLSolver.update calls replayed on the model) + extended-precision oracle",
           "Machine-checked theorems (soundness, exact refusal, physical branch, all-sites, documented equation) about the Lean model of solve_for_psi_squared, for every complex z, w; the model's Float interpretation is compared site by site with the implementation and an independent extended-precision oracle evaluates the theorems' conclusions on the implementation's own answers.", "§5 C02"),
  "C03": P("Lean 4 theorems over any (ordered) field for every well-formed mesh + Float-model correspondence with the scipy-assembled operators + identity residuals on the implementation matrices",
           "L = D∘G, Σ a·(DF) = 0, boundary flux, Green identity, symmetry, negative semidefiniteness, kernel = constants on connected meshes, Hermitian covariant Laplacian and exact gradient of linear functions are theorems for all meshes/weights/fields; the four builders are compared with the model's row functions on a mesh zoo.", "§5 C03"),
@@ -25,11 +25,11 @@ CLAIMED = {
           "For every well-formed mesh, pinned set and finite history the refreshed matrices equal the rebuilt ones (theorem); the implementation is driven through sequences of length 1..6 and compared entry by entry.", "§5 C10"),
  "C11": P("Lean 4 theorems (frames lie on one trajectory whatever k; records/probes do not feed back; resumption) + pairwise bit-for-bit comparison of real runs differing in one recording option and of all split points of a resumed run",
           "Observer independence and resumption are theorems about the loop model for every physics; the implementation is compared pairwise, bit for bit.", "§5 C11"),
- "C12": P("Lean 4 theorems over ordered fields (retry law, exhaustion, non-adaptive refusal, documented rule, bounds by induction over the run, fixed step) + step-by-step replay of TDGLSolver.update against the Lean controller",
+ "C12": P("Lean 4 theorems over ordered fields (retry law, exhaustion, non-adaptive refusal, documented rule, bounds by induction over the run, fixed step; the physical adaptive update refines the controller model) + step-by-step replay of TDGLSolver.update against the Lean controller",
           "The dt controller is proved for every refusal oracle and history; the real update is driven with genuine and scheduled refusals and compared bit for bit (dt used) with the model replayed on the same answers.", "§5 C12"),
  "C17": P("Lean 4 theorems over ℝ (Laplacian of constants vanishes at A=0, per-site fixed point for all γ,u,dt, whole-update fixed point, induction over steps) + undriven real runs and dt sequence vs the Lean controller",
           "Stationarity of the uniform state is a theorem for every mesh given only solve(0)=0; undriven real runs on irregular/holed/smoothed meshes stay at the uniform state to 1e-15 (also after a pinned run on the same device, with screening, and over 5 tau) and the adaptive step reaches dt_max as the model predicts. Known finding F17: with dt_max beyond the explicit stability limit dt*lambda_max/(u*sqrt(1+gamma^2)) < 2 rounding residue is amplified (bar_hole, gamma=0, u=1, dt_max=0.1).", "§5 C17"),
- "C07": P("Lean 4 theorems over any field (circumcentre equidistant and labelling-independent, kites tile the triangle, dual edges on bisectors, edge geometry) + per-mesh validation of the external mesher + cell areas / dual lengths vs an independently clipped Voronoi diagram",
+ "C07": P("Lean 4 theorems over any (ordered) field (circumcentre equidistant and labelling-independent, kites tile the triangle, dual edges on bisectors, edge geometry; coded dual length = |signed face|, signed face >= 0 iff locally Delaunay / unencroached, finite-volume area identity) + per-mesh validation of the external mesher + cell areas / dual lengths vs an independently clipped Voronoi diagram",
           "PARTIAL: the repo's own geometry (circumcentres, kite areas, dual lengths, edge vectors) and connectivity (edge list = the sides of the triangles once each in lexicographic order, boundary flags = sides of exactly one triangle, boundary sites) are proved; the triangulation comes from Triangle/qhull/shapely and is validated on every generated mesh (orientation, tiling area, outlines, Euler relation, terminal lengths); cell areas and dual edge lengths are compared with an independent half-plane construction of the clipped Voronoi diagram on locally Delaunay cells.", "§5 C07"),
  "C08": P("Lean 4 theorems over any field (all dimensionless solver inputs are functions of SI values only; flux per triangle) + scale factors of the real constructor vs the Lean Units model for 27 unit triples + paired real runs on a shared dimensionless mesh",
           "Unit independence of Bc2/A0/K0, link exponents, terminal densities and screening weights is proved; the real constructor is compared with the model for every unit triple and real runs in different unit systems agree to 1e-9 on a shared mesh. Known finding: make_mesh itself is not scale invariant (Triangle).", "§5 C08"),
